@@ -233,8 +233,8 @@ class ApiNamespace:
                 return
             elif alias.namespace != self:
                 return
-            if is_alias(alias.data_type):
-                add_alias(alias.data_type)
+            for referenced_alias in _referenced_aliases(alias.data_type):
+                add_alias(referenced_alias)
             linearized_aliases.append(alias)
             seen_aliases.add(alias)
 
@@ -338,6 +338,21 @@ class ApiNamespace:
     def __repr__(self):
         # type: () -> str
         return 'ApiNamespace({!r})'.format(self.name)
+
+
+def _referenced_aliases(data_type):
+    """
+    Returns the aliases a data type refers to directly or nested in nullables,
+    lists and maps.
+    """
+    if is_alias(data_type):
+        return [data_type]
+    aliases = []
+    for attr in ('data_type', 'key_data_type', 'value_data_type'):
+        inner = getattr(data_type, attr, None)
+        if inner is not None:
+            aliases.extend(_referenced_aliases(inner))
+    return aliases
 
 
 class ApiRoute:
